@@ -575,10 +575,11 @@ class Forcing(BaseForce):
         self.add_offset = dict()
         forcing_variables = ["u", "v", *self.extra_forcing]
         for key in forcing_variables:
-            if hasattr(nc.variables[key], "scale_factor"):
+            var = nc.variables[key]
+            if hasattr(var, "scale_factor") or hasattr(var, "add_offset"):
                 self.scaled[key] = True
-                self.scale_factor[key] = np.float32(nc.variables[key].scale_factor)
-                # add_offset is optional (CF), default zero
+                # Both packing attributes are optional (CF)
+                self.scale_factor[key] = np.float32(getattr(var, "scale_factor", 1.0))
                 self.add_offset[key] = np.float32(
                     getattr(nc.variables[key], "add_offset", 0.0)
                 )
@@ -607,14 +608,11 @@ class Forcing(BaseForce):
         U = self._nc.variables["u"][frame, :, self.grid.Ju, self.grid.Iu]
         V = self._nc.variables["v"][frame, :, self.grid.Jv, self.grid.Iv]
 
-        # Scale if needed
-        # Assume offset = 0 for velocity
+        # Unpack if needed
         if self.scaled["u"]:
-            U = self.scale_factor["u"] * U
+            U = self.add_offset["u"] + self.scale_factor["u"] * U
         if self.scaled["v"]:
-            V = self.scale_factor["v"] * V
-            # U = self.add_offset['u'] + self.scale_factor['u']*U
-            # V = self.add_offset['v'] + self.scale_factor['v']*V
+            V = self.add_offset["v"] + self.scale_factor["v"] * V
 
         # If necessary put U,V = zero on land and land boundaries
         # Stay as float32
